@@ -379,6 +379,11 @@ def rule_r5(p, res):
     cs = [norm(c) for c in calls_in(pt.node)]
     r.check(any(x.startswith("Tree.__init__(self, adjacency_matrix, root_vertex") for x in cs), pt, pt.node, "PointTree must initialise its Tree part with the root")
     _predefined_roots(p, r)
+    lv = p.own_method("Tree", "leaves")
+    r.instance(lv)
+    fl = [n_ for n_ in ast.walk(lv.node) if isinstance(n_, (ast.For, ast.comprehension))]
+    need(len(fl) == 1, "C14.R5: the vertex scan of Tree.leaves was not found")
+    r.check(str(norm(fl[0].iter)) == "range(self.n_vertices)", lv, lv.node, "Tree.leaves scans `%s`: every vertex, vertex 0 included, must be tested (the root need not be vertex 0)" % norm(fl[0].iter))
 
 
 def _predefined_roots(p, r):
@@ -428,6 +433,12 @@ def rule_r6(p, res):
             "vertex reachable by two routes look like a back edge", {"entered_line": ent[0].lineno, "loop_line": lp.lineno, "exited_line": ext[0].lineno})
     rec = [k for k in calls_in(lp) if norm(k.func) == dfs.name]
     r.check(len(rec) == 1 and norm(rec[0].args[0]) == norm(lp.target), f, lp, "every successor must be explored recursively")
+    # every vertex is tried as a start: the negative answer is given only after the loop over the start vertices
+    outer = [n_ for n_ in f.node.body if isinstance(n_, ast.For)]
+    need(len(outer) == 1, "C14.R6: the loop over the start vertices of _has_cycles was not found")
+    inside = [x for x in ast.walk(outer[0]) if isinstance(x, ast.Return) and x.value is not None and isinstance(x.value, ast.Constant) and x.value.value is False and not any(x is y for s_ in outer[0].orelse for y in ast.walk(s_))]
+    r.check(not inside, f, inside[0] if inside else outer[0], "`return False` sits inside the loop over the start vertices: only the component of the first vertex is searched, "
+            "a cycle that is not reachable from it is missed")
     # when is a back edge recorded?  truth table over (directed, neighbour entered, neighbour exited, neighbour is the tree parent)
     y = norm(lp.target)
     rec_be = [stmt_of(k) for k in calls_in(lp) if "back_edges" in norm(k.func) and isinstance(k.func, ast.Attribute) and k.func.attr in ("add", "append", "setdefault")]
@@ -510,4 +521,9 @@ WITNESSES = [
 WITNESSES += [
     Witness("C14.W14", "menpo/shape/graph_predefined.py", "star_graph", "graph_cls.init_from_edges(edges=edges, n_vertices=n_vertices, root_vertex=root_vertex, skip_checks=True)",
             "graph_cls.init_from_edges(edges=edges, n_vertices=n_vertices, root_vertex=0, skip_checks=True)", rule="C14.R5", construct="star_graph", note="seeded change R3-C14-B"),
+]
+
+WITNESSES += [
+    Witness("C14.W15", "menpo/shape/graph.py", "_has_cycles", "            return True\n    else:\n        return False", "            return True\n        else:\n            return False", rule="C14.R6", construct="_has_cycles", note="seeded change R4-C14-A"),
+    Witness("C14.W16", "menpo/shape/graph.py", "Tree.leaves", "range(self.n_vertices)", "range(1, self.n_vertices)", rule="C14.R5", construct="Tree.leaves", note="seeded change R4-C14-B"),
 ]
